@@ -70,3 +70,12 @@ theories/Properties_C03.vos theories/Properties_C03.vok theories/Properties_C03.
 theories/Properties_C04.vo theories/Properties_C04.glob theories/Properties_C04.v.beautified theories/Properties_C04.required_vo: theories/Properties_C04.v theories/Jbd2/Jbd2Model.vo theories/Jbd2/Jbd2Proofs.vo theories/Properties_C03.vo
 theories/Properties_C04.vio: theories/Properties_C04.v theories/Jbd2/Jbd2Model.vio theories/Jbd2/Jbd2Proofs.vio theories/Properties_C03.vio
 theories/Properties_C04.vos theories/Properties_C04.vok theories/Properties_C04.required_vos: theories/Properties_C04.v theories/Jbd2/Jbd2Model.vos theories/Jbd2/Jbd2Proofs.vos theories/Properties_C03.vos
+theories/Layout/Layout.vo theories/Layout/Layout.glob theories/Layout/Layout.v.beautified theories/Layout/Layout.required_vo: theories/Layout/Layout.v 
+theories/Layout/Layout.vio: theories/Layout/Layout.v 
+theories/Layout/Layout.vos theories/Layout/Layout.vok theories/Layout/Layout.required_vos: theories/Layout/Layout.v 
+theories/Layout/LayoutProofs.vo theories/Layout/LayoutProofs.glob theories/Layout/LayoutProofs.v.beautified theories/Layout/LayoutProofs.required_vo: theories/Layout/LayoutProofs.v theories/Layout/Layout.vo
+theories/Layout/LayoutProofs.vio: theories/Layout/LayoutProofs.v theories/Layout/Layout.vio
+theories/Layout/LayoutProofs.vos theories/Layout/LayoutProofs.vok theories/Layout/LayoutProofs.required_vos: theories/Layout/LayoutProofs.v theories/Layout/Layout.vos
+theories/Properties_C20.vo theories/Properties_C20.glob theories/Properties_C20.v.beautified theories/Properties_C20.required_vo: theories/Properties_C20.v theories/Layout/Layout.vo theories/Layout/LayoutProofs.vo
+theories/Properties_C20.vio: theories/Properties_C20.v theories/Layout/Layout.vio theories/Layout/LayoutProofs.vio
+theories/Properties_C20.vos theories/Properties_C20.vok theories/Properties_C20.required_vos: theories/Properties_C20.v theories/Layout/Layout.vos theories/Layout/LayoutProofs.vos
